@@ -176,7 +176,7 @@ func Load(cfg LoadCfg) (*Ctx, error) {
 func dropUnreferencedNewFuncs(c *Ctx, known map[string]bool) {
 	dead := map[types.Object]bool{}
 	for _, p := range c.Pkgs {
-		if !(p.PkgPath == modPath || strings.HasPrefix(p.PkgPath, modPath+"/")) || p.TypesInfo == nil {
+		if !(p.PkgPath == modPath || strings.HasPrefix(p.PkgPath, modPath+"/")) || p.TypesInfo == nil || strings.Contains(p.PkgPath, "/zz_ref_") {
 			continue
 		}
 		cand := map[types.Object]string{}
